@@ -15,8 +15,8 @@ LEVEL = "proof"
 COQ_MODULES = []
 # the per-element terms of every block integral of the three post-processors: models IntegralsE.v / IntegralsH.v / IntegralsM.v,
 # theorems in Properties_C13_integrals.v, harness h_blockint.cpp (props/xint.py)
-EXTENSIONS = ["xint"]
-EXTRA_PROPERTY_FILES = ["C13_integrals"]
+EXTENSIONS = ["xint", "xline"]
+EXTRA_PROPERTY_FILES = ["C13_integrals", "C13_contour"]
 ASSUMPTIONS = [
     "the per-element integrands themselves (energy density etc.) are tied to the code by C12's correspondence, not re-modelled here",
     "regions bounded by arcs are compared with the area of their chord polygon (the mesh never contains the circular segments)",
@@ -183,8 +183,9 @@ def correspond(ctx):
 
 
 def regen(ctx):
-    from props import xint
+    from props import xint, xline
     xint.regen(ctx)
+    xline.regen(ctx)
 
 
 def search(ctx, broken):
